@@ -121,26 +121,9 @@ func (p *engProject) envKey(t *engTarget) string {
 	if t.Helper {
 		k += fmt.Sprintf("|helper=%d", p.HelperVer)
 	}
-	// A module has one constant pool, one name table and one global table: what can shift the indices this function's
-	// bytecode uses is the SHAPE of the file -- how many functions and constants precede what it references -- not which
-	// targets they belong to. The shape is the list of styles of the package's targets in file order (style 1 defines two
-	// globals, the others one) together with this target's position. Replacing a target by another of the same style at
-	// the same position changes nothing for the others (all other edits replace a constant in place).
-	var same []*engTarget
-	for _, o := range p.Targets {
-		if o.Pkg == t.Pkg {
-			same = append(same, o)
-		}
-	}
-	sort.Slice(same, func(i, j int) bool { return same[i].ID < same[j].ID })
-	shape, pos := "", 0
-	for i, o := range same {
-		shape += strconv.Itoa(o.Style)
-		if o.ID == t.ID {
-			pos = i
-		}
-	}
-	return k + fmt.Sprintf("|shape=%s|pos=%d", shape, pos)
+	// Every target's function lives in a module file of its own (see render): nothing another target does can shift the
+	// constant, name or global indices its bytecode uses.
+	return k
 }
 
 func (p *engProject) envID(t *engTarget) int {
@@ -161,19 +144,27 @@ func (p *engProject) render(root string) error {
 	for _, pkg := range p.Pkgs {
 		ts := byPkg[pkg]
 		sort.Slice(ts, func(i, j int) bool { return ts[i].ID < ts[j].ID })
-		// Layout: a BUILD file holds the functions, one constant per target, an unrelated global and one target() call per
-		// target whose dependency/source/output lists come from //:cfg.dawn. A Starlark module has one constant pool, one name
-		// table and one global table, so adding or removing anything in the file shifts the indices every function's bytecode
-		// uses; with this layout the only edits that do so are adding and removing a target of the package (see envKey), and
-		// all other edits replace one constant by another in place.
+		// Layout: every target's function lives in a module file of its own, fn_<name>.dawn (a Starlark module has one
+		// constant pool, one name table and one global table, so functions sharing a file would shift each other's bytecode
+		// indices whenever one of them is added, removed or changes style); the BUILD file loads them, holds an unrelated
+		// global and one target() call per target whose dependency/source/output lists come from //:cfg.dawn.
+		dir := filepath.Join(root, pkg)
+		if err := os.MkdirAll(dir, 0755); err != nil {
+			return err
+		}
+		keep := map[string]bool{}
 		var b strings.Builder
-		b.WriteString("load(\"//:helpers.dawn\", \"helper\")\nload(\"//:cfg.dawn\", \"CFG\")\n\n")
+		b.WriteString("load(\"//:cfg.dawn\", \"CFG\")\n")
 		for _, t := range ts {
+			var m strings.Builder
+			m.WriteString("load(\"//:helpers.dawn\", \"helper\")\n\n")
+			// a closure factory (style 3 uses two closures made by it)
+			m.WriteString("def pair(x):\n    def get():\n        return x\n    return get\n\n")
 			kexpr := fmt.Sprintf("K_%s", t.Name)
 			for i := 0; i < t.Cosmetic%3; i++ {
-				b.WriteString("\n")
+				m.WriteString("\n")
 			}
-			fmt.Fprintf(&b, "# cosmetic %d\n", t.Cosmetic)
+			fmt.Fprintf(&m, "# cosmetic %d\n", t.Cosmetic)
 			cmd := strconv.Quote(p.command(t))
 			val := kexpr + " * 100"
 			if t.Helper {
@@ -181,25 +172,44 @@ func (p *engProject) render(root string) error {
 			}
 			switch t.Style {
 			case 0:
-				fmt.Fprintf(&b, "def %s_fn():\n    sh.exec(%s %% (%s))   # c%d\n\n", t.Name, cmd, val, t.Cosmetic)
+				// references a self-recursive function defined further down the file
+				fmt.Fprintf(&m, "def %s_fn():\n    sh.exec(%s %% (%s + rec(2)))   # c%d\n\n", t.Name, cmd, val, t.Cosmetic)
 			case 1:
-				fmt.Fprintf(&b, "def mk_%s():\n    v = [0]\n    def inner():\n        sh.exec(%s %% (%s + v[0]))\n    return inner\n\n%s_fn = mk_%s()\n\n", t.Name, cmd, val, t.Name, t.Name)
+				// a closure over a mutable cell; references a pair of mutually recursive functions
+				fmt.Fprintf(&m, "def mk_%s():\n    v = [0]\n    def inner():\n        sh.exec(%s %% (%s + v[0] + ping(3)))\n    return inner\n\n%s_fn = mk_%s()\n\n", t.Name, cmd, val, t.Name, t.Name)
+			case 3:
+				// two closures made by ONE definition; only the second captures the target's constant
+				fmt.Fprintf(&m, "def %s_fn():\n    sh.exec(%s %% (ZA_%s() + ZB_%s()))\n\n", t.Name, cmd, t.Name, t.Name)
 			default:
 				// a default parameter value computed from the helper module (style 2 always uses the helper)
-				fmt.Fprintf(&b, "def %s_fn(self, hv=helper()):\n    sh.exec(%s %% (%s * 100 + hv))\n\n", t.Name, cmd, kexpr)
+				fmt.Fprintf(&m, "def %s_fn(self, hv=helper()):\n    sh.exec(%s %% (%s * 100 + hv))\n\n", t.Name, cmd, kexpr)
+			}
+			// recursive functions, below the cosmetic edits of the file (their positions move, their meaning does not)
+			m.WriteString("def rec(n):\n    if n <= 0:\n        return 0\n    return rec(n - 1)\n\n")
+			m.WriteString("def ping(n):\n    if n <= 0:\n        return 0\n    return pong(n - 1)\n\ndef pong(n):\n    if n <= 0:\n        return 0\n    return ping(n - 1)\n\n")
+			fmt.Fprintf(&m, "K_%s = %d\n", t.Name, t.K)
+			if t.Style == 3 {
+				fmt.Fprintf(&m, "ZA_%s = pair(0)\nZB_%s = pair(%s)\n", t.Name, t.Name, val)
+			}
+			file := "fn_" + t.Name + ".dawn"
+			keep[file] = true
+			if err := os.WriteFile(filepath.Join(dir, file), []byte(m.String()), 0644); err != nil {
+				return err
+			}
+			fmt.Fprintf(&b, "load(\"//%s:%s\", \"%s_fn\")\n", pkg, file, t.Name)
+		}
+		if old, _ := filepath.Glob(filepath.Join(dir, "fn_*.dawn")); old != nil {
+			for _, f := range old {
+				if !keep[filepath.Base(f)] {
+					os.Remove(f)
+				}
 			}
 		}
-		for _, t := range ts {
-			fmt.Fprintf(&b, "K_%s = %d\n", t.Name, t.K)
-		}
+		b.WriteString("\n")
 		fmt.Fprintf(&b, "PAD = \"pad-%d\"\n\n", p.Pad[pkg])
 		for _, t := range ts {
 			fmt.Fprintf(&b, "target(name=%q, function=%s_fn, deps=CFG[%q][0], sources=CFG[%q][1], generates=CFG[%q][2], always=CFG[%q][3])\n",
 				t.Name, t.Name, p.label(t.ID), p.label(t.ID), p.label(t.ID), p.label(t.ID))
-		}
-		dir := filepath.Join(root, pkg)
-		if err := os.MkdirAll(dir, 0755); err != nil {
-			return err
 		}
 		if err := os.WriteFile(filepath.Join(dir, "BUILD.dawn"), []byte(b.String()), 0644); err != nil {
 			return err
@@ -244,7 +254,7 @@ const engBodySh = `#!/bin/sh
 # usage: body.sh <root> <label> <k> <noutputs> outputs... inputs...
 root=$1; label=$2; k=$3; n=$4; shift 4
 echo "$label" >> "$root/.exec.log"
-case ",$VERIF_FAIL," in *",$label,"*) echo "body of $label fails" >&2; exit 1;; esac
+case ",$VERIF_FAIL," in *",$label,"*) printf 'body of %s fails' "$label" >&2; exit 1;; esac
 case ",$VERIF_PARTIAL," in *",$label,"*)
   # the process is killed in the middle of this body: outputs exist but are incomplete
   for o in "$@"; do :; done
@@ -346,6 +356,7 @@ type engHistory struct {
 // ---------------------------------------------------------------------------------------------
 
 type engRun struct {
+	extraEnv  []string // additional environment of the next child processes
 	t         *testing.T
 	rng       *rand.Rand
 	root      string
@@ -396,6 +407,7 @@ func (r *engRun) child(mode, lbl string, fail []int, crash string) (*engReport, 
 	}
 	cmd.Env = append(os.Environ(), "VERIF_CHILD=1", "VERIF_ROOT="+r.root, "VERIF_MODE="+mode, "VERIF_LABEL="+lbl,
 		"VERIF_REPORT="+reportPath, "VERIF_FAIL="+strings.Join(fl, ","), "VERIF_CRASH="+crash, "VERIF_PARTIAL="+partial)
+	cmd.Env = append(cmd.Env, r.extraEnv...)
 	done := make(chan error, 1)
 	var out []byte
 	go func() {
